@@ -471,28 +471,39 @@ class LogicalType(type):  # noqa
                     return value
 
             xor = None
-            # whether a condition is met is tested on the value as it is:
-            # the 'exclude' / 'preserve' policies must not make a condition "fit"
-            throw_options = utype.Options(
+            # whether a condition is met is tested on the value as it is: the 'exclude' / 'preserve' policies
+            # must not make a condition "fit"; only when none fits as it is, they are tried under the policies
+            options = context.options
+            passes = [utype.Options(
                 invalid_items="throw", invalid_keys="throw", invalid_values="throw",
-            )
+            )]
+            if {options.invalid_items, options.invalid_keys, options.invalid_values} != {options.THROW}:
+                passes.append(None)
 
-            for con in cls.args:
-                with context.enter(cls.combinator, options=throw_options) as new_context:
-                    try:
-                        value = new_context.transformer(value, con)
-                        if xor is None:
-                            xor = con
-                        else:
-                            context.handle_error(
-                                exc.OneOfViolatedError(
-                                    f"More than 1 conditions ({xor}, {con}) is True in XOR conditions"
+            given = value
+            for pass_options in passes:
+                violated = False
+                for con in cls.args:
+                    with context.enter(cls.combinator, options=pass_options) as new_context:
+                        try:
+                            # (every condition is tested on the value as it was given)
+                            converted = new_context.transformer(given, con)
+                            if xor is None:
+                                xor = con
+                                value = converted
+                            else:
+                                context.handle_error(
+                                    exc.OneOfViolatedError(
+                                        f"More than 1 conditions ({xor}, {con}) is True in XOR conditions"
+                                    )
                                 )
-                            )
-                            xor = None
-                            break
-                    except Exception as e:
-                        context.collect_tmp_error(e)
+                                xor = None
+                                violated = True
+                                break
+                        except Exception as e:
+                            context.collect_tmp_error(e)
+                if xor is not None or violated:
+                    break
 
             if xor is not None:
                 # only one condition is satisfied in XOR
